@@ -6,6 +6,7 @@ Open Scope string_scope.
 Inductive case19 :=
 | KWv (file : bytes) (crashed err : bool) (nvec : Z) (rss_kb base_kb : Z)
 | KCe (file : bytes) (crashed err : bool) (nvec : Z) (vec0 : bytes) (rss_kb base_kb : Z)
+| KPipe (what : string) (file : bytes) (crashed : bool) (rss_kb base_kb : Z)   (* the bytes of [file] delivered through a named pipe *)
 | KCos (a b : list float) (ab ba : float)
 | KStage (without with_index no_index_again : list eres) (sims : option (list float)).
 
@@ -37,6 +38,10 @@ Definition check_case (c : case19) : report :=
                     | POk es => if Z.eqb nvec (Z.of_nat (List.length es)) && match es with e0 :: _ => bytes_eqb e0 vec0 | [] => true end then VOk else VMismatch "ce/content"
                     | _ => VOk end in
       {| r_verdict := v; r_trivial := false; r_tags := ["ce"; if err then "rejected" else "loaded"] |}
+  | KPipe what file crashed rss base =>
+      {| r_verdict := if crashed then VPredFail ("loader_crash/pipe/" ++ what)
+                      else if negb (memory_ok file rss base) then VPredFail ("memory/pipe/" ++ what) else VOk;
+         r_trivial := false; r_tags := ["pipe"; what] |}
   | KCos a b ab ba =>
       let zero_case := negb (Nat.eqb (List.length a) (List.length b)) || Nat.eqb (List.length a) 0 ||
                        forallb (fun x => PrimFloat.eqb x 0) a || forallb (fun x => PrimFloat.eqb x 0) b in
